@@ -263,16 +263,17 @@ Section WithOracle.
       split; intros [H1 H2]; split; auto.
       - intros H. apply smem_In in H. congruence.
       - destruct (smem w seen) eqn:X; [|reflexivity]. apply smem_In in X. contradiction. }
-    destruct fresh as [|x fresh'] eqn:Efresh.
-    - split; [auto|]. intros v w Hv Hw.
+    assert (Hcase : fresh = [] \/ exists x, In x fresh)
+      by (destruct fresh as [|x l]; [left; reflexivity|right; exists x; simpl; auto]).
+    destruct Hcase as [Hnil|Hx].
+    - rewrite Hnil. rewrite Hnil in Hfresh.
+      split; [auto|]. intros v w Hv Hw.
       destruct (in_dec Nat.eq_dec v frontier) as [Hin|Hnin]; [|eapply Hpar; eauto].
       destruct (in_dec Nat.eq_dec w seen) as [Hs|Hs]; [exact Hs|]. exfalso.
       assert (X : In w []) by (apply Hfresh; split; [apply in_flat_map; eauto|exact Hs]). destruct X.
-    - rewrite <- Efresh in *. clear Efresh x fresh'.
-      assert (Hx : exists x, In x fresh).
-      { destruct fresh as [|x l]; [|exists x; simpl; auto].
-        (* fresh is non-empty in this branch *) exfalso.
-        match goal with H : [] = _ :: _ |- _ => discriminate H | _ => idtac end. }
+    - replace (match fresh with [] => seen | _ :: _ => close_dirty fuel e fresh (seen ++ fresh) end)
+        with (close_dirty fuel e fresh (seen ++ fresh))
+        by (destruct fresh; [destruct Hx as (? & [])|reflexivity]).
       destruct (IH fresh (seen ++ fresh)) as [K1 K2].
       + destruct Hx as (x & Hx). apply Hfresh in Hx as [Hx1 Hx2].
         assert (Hall : In x (nodup Nat.eq_dec (all_index_ids e))).
